@@ -10,6 +10,9 @@ ID="$1"; STATS="$2"
 BIN="${PCKB_BIN:-/verif/target/release/pckb-check}"
 RUNS="${PCKB_FUZZ_RUNS:-500000}"
 JOBS="${PCKB_FUZZ_JOBS:-4}"
+# safety cap per job (seconds): a job that is slower than ~400 exec/s stops early; its statistics
+# then show fewer executions than requested (a budget hit is never a verdict)
+MAXT="${PCKB_FUZZ_MAX_TIME:-1200}"
 SEED="${VERIF_SEED:-0}"
 TARGETS=$("$BIN" fuzz-targets "$ID")
 [ -z "$TARGETS" ] && exit 0
@@ -34,7 +37,7 @@ for t in $TARGETS; do
     # operands as feedback: lets the fuzzer climb counters and thresholds that plain edge
     # coverage cannot see)
     if [ "$j" -le 2 ]; then EXTRA="-max_len=256"; else EXTRA="-max_len=8192 -use_value_profile=1"; fi
-    ( cd "$w" && PCKB_PROP="$ID" timeout 3000 "$TDIR/$t" corpus -runs="$RUNS" -seed=$((SEED * 16 + j)) $EXTRA -len_control=0 \
+    ( cd "$w" && PCKB_PROP="$ID" timeout 3000 "$TDIR/$t" corpus -runs="$RUNS" -max_total_time="$MAXT" -seed=$((SEED * 16 + j)) $EXTRA -len_control=0 \
         -artifact_prefix="$w/artifacts/" -print_final_stats=1 -verbosity=1 > "$w/log" 2>&1 ) &
   done
 done
